@@ -69,7 +69,9 @@ var classes = []lossClass{
 	{"outlineLvl", wKidOf("outlineLvl", "pPr"), regexp.MustCompile(`\.Properties\.OutlineLevel$`),
 		func(o ops.Op) bool { return o.K == "outline" || (o.K == "pformat" && oi(o, 5) >= 0 && oi(o, 5) <= 8) }},
 	{"snapToGrid", wKidOf("snapToGrid", "pPr"), regexp.MustCompile(`\.Properties\.SnapToGrid$`),
-		func(o ops.Op) bool { return (o.K == "snap" && !ob(o, 0)) || (o.K == "pformat" && ob(o, 4) && !ob(o, 5)) }},
+		func(o ops.Op) bool {
+			return (o.K == "snap" && !ob(o, 0)) || (o.K == "pformat" && ob(o, 4) && !ob(o, 5))
+		}},
 	{"pBdr", wKidOf("pBdr", "pPr"), regexp.MustCompile(`\.Properties\.ParagraphBorder$`),
 		func(o ops.Op) bool {
 			return o.K == "hrule" || (o.K == "pborder" && (ob(o, 0) || ob(o, 1) || ob(o, 2) || ob(o, 3)))
@@ -89,7 +91,9 @@ var classes = []lossClass{
 		return (n.Is(canon.M, "oMathPara") || n.Is(canon.M, "oMath")) && n.Parent.Is(canon.W, "p")
 	}, regexp.MustCompile(`^body-level:math$`),
 		func(o ops.Op) bool { return o.K == "math" || o.K == "mathlatex" }},
-	{"anchor", func(n *canon.Node) bool { return n.Space == canon.WP && anchorKids[n.Local] && n.Parent.Is(canon.WP, "anchor") },
+	{"anchor", func(n *canon.Node) bool {
+		return n.Space == canon.WP && anchorKids[n.Local] && n.Parent.Is(canon.WP, "anchor")
+	},
 		regexp.MustCompile(`\.Drawing\.Anchor\.(SimplePosition|PositionH|PositionV|EffectExtent|WrapTight|WrapThrough|WrapTopAndBottom|CNvGraphicFramePr)$`),
 		func(o ops.Op) bool {
 			if o.K == "imagefloat" {
